@@ -155,6 +155,20 @@ def stress_case(rng, tier, n):
     return [1, shapes, [[t, 1] for t in PROBE_T], [4, 2, min_rec, swaps, n]]
 
 
+def stress_levels_case(rng, tier, n):
+    """as stress_case, but the configurations differ in their THRESHOLDS and the probes cover three levels:
+    a record whose level is judged by one configuration and whose fan-out comes from another one shows up
+    as a delivery that is the route of neither (e.g. an enabled() pre-check with its own snapshot load)"""
+    shapes = [
+        [0, ["a", "b", "c"], [5, ["a"]], [["x", 1, 1, ["b"]], ["x::y", 5, 1, ["c"]]]],
+        [1, ["a", "b", "c"], [1, ["b"]], [["x", 5, 0, ["c"]], ["q", 3, 1, ["a"]]]],
+        [2, ["a", "b", "c"], [3, ["c", "a"]], [["x", 3, 1, ["a"]], ["x::y", 1, 0, ["b"]]]],
+    ]
+    min_rec = 3000 if tier == "quick" else 30000
+    swaps = 600 if tier == "quick" else 5000
+    return [1, shapes, [list(p) for p in PROBES], [4, 2, min_rec, swaps, n]]
+
+
 # ----------------------------------------------------------------------------- Part B data
 RATES = [20, 35, 50]
 
@@ -305,6 +319,8 @@ def cases(rng, tier):
         out.append(random_sched(rng))
     for n in range(3 if tier == "quick" else 12):
         out.append(stress_case(rng, tier, n))
+    for n in range(2 if tier == "quick" else 8):
+        out.append(stress_levels_case(rng, tier, 100 + n))
     depth = 4 if tier == "quick" else 6
     for acts in itertools.product(range(8), repeat=depth):
         out.append(build_history(0, acts))
